@@ -360,3 +360,95 @@ func TestVerifC03Random(t *testing.T) {
 		}
 	}
 }
+
+// TestVerifC03Resumed: transfers into an output directory that holds the state of an earlier
+// (partial or complete) run must complete as well.
+func TestVerifC03Resumed(t *testing.T) {
+	rec := verifkit.NewRecorder("C03", "resumed")
+	defer rec.Flush()
+	rapid.Check(t, func(rt *rapid.T) {
+		x := xcase{Chunk: rapid.OneOf(rapid.IntRange(1, 40), rapid.SampledFrom([]int{7, 16, 64, 512})).Draw(rt, "chunk")}
+		x.Tree = verifnet.GenTree(rt, x.Chunk, verifnet.GenOpts{MaxFiles: 4, MinFiles: 1, MaxChunks: 10})
+		x.Streams = rapid.IntRange(1, 6).Draw(rt, "streams")
+		x.Conns = rapid.SampledFrom([]int{1, 1, 2}).Draw(rt, "conns")
+		x.SendResume, x.RecvResume = true, true
+		x.NoRootDir = rapid.IntRange(0, 3).Draw(rt, "rootdir") != 0
+		x.Mode = rapid.SampledFrom([]string{"scan", "paths"}).Draw(rt, "mode")
+		x.QUICVis = rapid.Bool().Draw(rt, "quicvis")
+		x.Perturb = genPerturb(rt, 2)
+		dir := caseDir("c03p")
+		defer os.RemoveAll(dir)
+		p, err := prepare(x, dir)
+		if err != nil {
+			rec.Class("not-prepared")
+			return
+		}
+		ps := priorState{Marked: map[string][]int{}}
+		full, partial := false, false
+		for i, it := range p.fileItems() {
+			total := (int(it.Size) + x.Chunk - 1) / x.Chunk
+			if total == 0 {
+				continue
+			}
+			mode := rapid.IntRange(0, 3).Draw(rt, fmt.Sprintf("prior%d", i)) // 0 none, 1 all, 2-3 subset
+			var marked []int
+			switch mode {
+			case 1:
+				for j := 0; j < total; j++ {
+					marked = append(marked, j)
+				}
+				full = true
+			case 2, 3:
+				bits := rapid.SliceOfN(rapid.Bool(), total, total).Draw(rt, fmt.Sprintf("marked%d", i))
+				for j, b := range bits {
+					if b {
+						marked = append(marked, j)
+					}
+				}
+				if len(marked) > 0 && len(marked) < total {
+					partial = true
+				}
+			}
+			if len(marked) > 0 {
+				ps.Marked[it.RelPath] = marked
+			}
+		}
+		if err := p.installPrior(ps, 0); err != nil {
+			rt.Fatalf("install prior: %v", err)
+		}
+		pair, err := p.newPair(nil)
+		if err != nil {
+			rt.Fatalf("pair: %v", err)
+		}
+		remove := installPerturb(x.Perturb, nil)
+		res := p.run(pair, 30*time.Second, 5*time.Second)
+		remove()
+		pair.Close()
+		rec.Eval()
+		detail := fmt.Sprintf("prior marks: %v | case: %s | %s", ps.Marked, x, res)
+		switch {
+		case res.Hung:
+			rec.Fail(rt, "resumed:"+res.HangKind, detail+"\n"+verifnet.TrimDump(res.Dump))
+			return
+		case !res.BothOK():
+			rec.Fail(rt, "resumed-failed:"+errClass(fmt.Sprint(res.SendErr, res.RecvErr)), detail)
+			return
+		}
+		if diff := p.checkTree(); diff != "" {
+			rec.Fail(rt, "resumed-completed-with-wrong-tree", diff+" | "+detail)
+			return
+		}
+		if full {
+			rec.Class("file-complete-before")
+		}
+		if partial {
+			rec.Class("file-partial-before")
+		}
+		if full || partial {
+			rec.NonTrivial(fmt.Sprint(ps.Marked) + x.fingerprint())
+		}
+		if rec.SampleWanted() {
+			rec.Sample(detail)
+		}
+	})
+}
